@@ -14,9 +14,7 @@ use crate::refchess::*;
 use crate::report::Outcome;
 use crate::srch::*;
 use crate::universe::Universe;
-use crate::verif_hooks::{in_seq, SeqCtx};
 use arrayvec::ArrayVec;
-use std::sync::atomic::AtomicBool;
 
 const MIN: i32 = i16::MIN as i32;
 const MAX: i32 = i16::MAX as i32;
@@ -136,91 +134,70 @@ pub fn clamp(x: i32) -> i32 {
     x.max(MIN + 1000).min(MAX - 1000)
 }
 
-pub fn history_pattern(k: usize) -> [u16; 64 * 12] {
-    let mut h = [0u16; 64 * 12];
-    for (i, x) in h.iter_mut().enumerate() {
-        *x = match k {
-            0 => 0,
-            1 => 10_000,
-            2 => (i * 13 % 10_000) as u16,
-            3 => (10_000 - (i * 13 % 10_000)) as u16,
-            _ => {
-                if (i % 64) % 2 == 1 {
-                    5_000
-                } else {
-                    0
-                }
-            }
-        };
-    }
-    h
-}
-
-pub const PATTERNS: [&str; 5] = ["all zero", "all 10000", "ascending by index", "descending by index", "odd squares only"];
-
-/// optimised search, table-less, one history state. Ok(score) / Err(panic). None = only-move / no-move shortcut
-pub fn optimised(g: &Game, depth: u8, pattern: usize) -> Result<Option<i32>, String> {
-    let mut ctx = SeqCtx::new();
-    ctx.tableless = true;
-    let flag = AtomicBool::new(true);
+/// Optimised search, table-less, through the engine's stable entry point (the iterative-deepening driver also used by
+/// the UCI layer): one run to `max_depth`; the value of iteration d is the `info score cp` line printed for it.
+/// Iteration 1 runs on an all-zero history table, iteration d on the history left by iterations 1..d-1 (the
+/// "fresh and pre-filled history tables" of the property). Returns the (depth, score) pairs printed.
+pub fn optimised(g: &Game, max_depth: u8) -> Result<Vec<(u32, i32)>, String> {
+    let cfg = SearchCfg { max_depth: Some(max_depth), stop_at: u64::MAX, depth_monitor: u32::MAX, watchdog: 200_000_000, tableless: true };
     let mut table = new_table();
-    let mut hist = history_pattern(pattern);
-    let gc = g.clone();
-    let (r, _) = in_seq(ctx, || guarded(|| crate::search::get_best_move_entry(gc, &flag, depth, &mut table, &mut hist)));
-    match r {
+    let run = run_search(g, &mut table, &cfg);
+    match run.result {
         Err(p) => Err(p),
-        Ok(None) => Err("search aborted although the flag was never lowered".into()),
-        Ok(Some((_, _, true))) => Ok(None),
-        Ok(Some((_, score, false))) => Ok(Some(score as i32)),
+        Ok(_) => {
+            let d = info_depths(&run.transcript);
+            let sc = info_scores(&run.transcript);
+            Ok(d.into_iter().zip(sc.into_iter()).collect())
+        }
     }
 }
 
-pub fn compare_root(fen: &str, g: &Game, depth: u8, cap: u64, acc: &mut Acc) {
-    let mut r = Reference { empty_node: false, nodes: 0, cap };
-    let mut gc = g.clone();
-    let want = match guarded(|| r.root(&mut gc, depth as i32)) {
+pub fn compare_root(fen: &str, g: &Game, max_depth: u8, cap: u64, acc: &mut Acc) {
+    let mut gm = g.clone();
+    let nlegal = moves(&mut gm, true).len();
+    if nlegal < 2 {
+        acc.count("roots answered by the only-move / no-move shortcut (no value to compare)");
+        return;
+    }
+    let printed = match optimised(g, max_depth) {
         Ok(v) => v,
         Err(p) => {
-            acc.count("reference search panicked on this tree (not compared)");
-            let _ = p;
+            acc.violation(format!("c09-panic|{}|d{}", fen, max_depth), format!("table-less search crashed: {} [{} depth {}]", p, fen, max_depth), json::obj(vec![("kind", json::s("c09-root")), ("fen", json::s(fen)), ("depth", json::i(max_depth))]));
             return;
         }
     };
-    if r.nodes > cap {
-        acc.count("roots skipped: reference node cap hit (not compared, not covered)");
-        return;
-    }
-    if r.empty_node {
-        acc.count("trees skipped: contain a node with king but no generated move");
-        return;
-    }
-    acc.states += 1;
-    acc.max("reference nodes in one tree", r.nodes);
-    for k in 0..PATTERNS.len() {
+    for (depth, got) in printed {
+        let mut r = Reference { empty_node: false, nodes: 0, cap };
+        let mut gc = g.clone();
+        let want = match guarded(|| r.root(&mut gc, depth as i32)) {
+            Ok(v) => v,
+            Err(_) => {
+                acc.count("reference search panicked on this tree (not compared)");
+                return;
+            }
+        };
+        if r.nodes > cap {
+            acc.count("roots skipped: reference node cap hit (not compared, not covered)");
+            return;
+        }
+        if r.empty_node {
+            acc.count("trees skipped: contain a node with king but no generated move");
+            continue;
+        }
+        acc.states += 1;
         acc.evaluations += 1;
-        match optimised(g, depth, k) {
-            Err(p) => {
-                acc.violation(format!("c09-panic|{}|d{}", fen, depth), format!("table-less search crashed: {} [{} depth {} history '{}']", p, fen, depth, PATTERNS[k]), json::obj(vec![("kind", json::s("c09-root")), ("fen", json::s(fen)), ("depth", json::i(depth))]));
-                return;
-            }
-            Ok(None) => {
-                acc.count("roots answered by the only-move / no-move shortcut (no value to compare)");
-                return;
-            }
-            Ok(Some(got)) => {
-                acc.transitions += 1;
-                if clamp(got) != clamp(want) {
-                    acc.outcome("differs");
-                    acc.violation(
-                        format!("c09-value|{}|d{}", fen, depth),
-                        format!("optimised table-less search returns {} but the exhaustive reference returns {} [{} depth {} history '{}', reference nodes {}]", got, want, fen, depth, PATTERNS[k], r.nodes),
-                        json::obj(vec![("kind", json::s("c09-root")), ("fen", json::s(fen)), ("depth", json::i(depth))]),
-                    );
-                    return;
-                } else {
-                    acc.outcome(if clamp(want) != want { "equal (mate range)" } else if want == 0 { "equal (zero)" } else { "equal" });
-                }
-            }
+        acc.transitions += 1;
+        acc.max("reference nodes in one tree", r.nodes);
+        if clamp(got) != clamp(want) {
+            acc.outcome("differs");
+            acc.violation(
+                format!("c09-value|{}|d{}", fen, depth),
+                format!("optimised table-less search returns {} at iteration {} but the exhaustive reference returns {} [{}; {} history table, reference nodes {}]", got, depth, want, fen, if depth == 1 { "fresh" } else { "pre-filled by the earlier iterations" }, r.nodes),
+                json::obj(vec![("kind", json::s("c09-root")), ("fen", json::s(fen)), ("depth", json::i(depth))]),
+            );
+            return;
+        } else {
+            acc.outcome(if clamp(want) != want { format!("equal (mate range), iteration {}", depth) } else { format!("equal, iteration {}", depth) });
         }
     }
 }
@@ -230,7 +207,7 @@ pub fn run(tier: &str, seed: i64) -> Outcome {
     let off = seed.unsigned_abs();
     let spaces = vec![
         Space::slice(Universe::U2, if q { 8 } else { 1 }, off),
-        Space::slice(Universe::U3, if q { 300 } else { 12 }, off),
+        Space::slice(Universe::U3, if q { 100 } else { 8 }, off),
         Space::slice(Universe::UC { extras: 1 }, if q { 60 } else { 4 }, off),
         Space::slice(Universe::UE { extras: 0, capturer_files: None, slider_only: false }, if q { 60 } else { 4 }, off),
         Space::slice(Universe::UP, if q { 8 } else { 1 }, off),
@@ -248,15 +225,51 @@ pub fn run(tier: &str, seed: i64) -> Outcome {
         let nlegal = ctx.pos.legal().len();
         let fen = ctx.pos.fen6(false);
         let dmax: u8 = if open { 2 } else if !q && nlegal <= 12 { 4 } else { 3 };
-        for d in 1..=dmax {
-            compare_root(&fen, &g, d, 2_000_000, acc);
-        }
+        compare_root(&fen, &g, dmax, 2_000_000, acc);
         if acc.samples.len() < 2 {
-            acc.sample(json::obj(vec![("root", json::s(fen)), ("depths", json::s(format!("1..={}", dmax))), ("history_states", json::strs(&PATTERNS))]));
+            acc.sample(json::obj(vec![("root", json::s(fen)), ("iterations", json::s(format!("1..={}", dmax)))]));
         }
     });
+    // high-mobility roots: interior nodes with far more than 64 moves (late-move heuristics, move-list order effects)
+    let mut acc = acc;
+    let mut reports = reports;
+    let mob: Vec<String> = {
+        let mut v = vec![];
+        for f in [
+            "R6R/3Q4/1Q4Q1/4Q3/2Q4Q/Q4Q2/pp1Q4/kBNN1KB1 w - - 0 1",
+            "3Q4/1Q4Q1/4Q3/2Q4R/Q4Q2/3Q4/1Q4Rp/1K1BBNNk w - - 0 1",
+            "k6q/pp6/8/q3N3/1q6/q7/2q3PP/5BRK w - - 0 1",
+            "k7/pp6/8/q3N3/1q4q1/q7/2q3PP/5BRK w - - 0 1",
+            "Q6Q/8/2Q2Q2/8/8/2Q2Q2/6PP/Q2k2KQ w - - 0 1",
+            "k7/8/1Q1Q1Q2/8/1Q1Q1Q2/8/1Q1Q1Q2/7K w - - 0 1",
+            "6k1/5ppp/8/3Q4/1Q3Q2/8/5PPP/3Q2K1 w - - 0 1",
+        ] {
+            if let Ok(p) = parse_fen_strict(f) {
+                for q in [p.pos, p.pos.mirror()] {
+                    for white in [true, false] {
+                        let mut x = q;
+                        x.white = white;
+                        if x.sane() {
+                            v.push(x.fen6(false));
+                        }
+                    }
+                }
+            }
+        }
+        v.sort();
+        v.dedup();
+        v
+    };
+    let t0 = std::time::Instant::now();
+    let macc = par_items(&mob, &|_, fen, acc| {
+        if let Ok(g) = Game::new(fen) {
+            compare_root(fen, &g, if q { 3 } else { 4 }, 30_000_000, acc);
+        }
+    });
+    reports.push(SpaceReport { name: format!("high-mobility roots ({} positions with 60-218 moves for one side, both sides to move, colour mirrors), iterations 1..={}", mob.len(), if q { 3 } else { 4 }), states: macc.states, exhaustive: true, note: format!("[{:.1}s]", t0.elapsed().as_secs_f64()) });
+    acc.merge(macc);
     // the states counter of run_spaces counts visited roots; compare_root counts compared trees on top: keep both visible
-    let mut out = Outcome::new(acc, reports, "every root of the listed spaces x every depth 1..=3 (4 on roots with <= 12 moves, thorough; 1..=2 near middlegame roots) x five history-table states: get_best_move_entry with every table lookup forced to miss (node hook clears the table) must return the value of an exhaustive unpruned negamax over the same tree with the same leaf rule, after clamping mate-range scores; trees containing a node with king but no generated move are skipped and counted");
+    let mut out = Outcome::new(acc, reports, "every root of the listed spaces x every depth 1..=3 (4 on roots with <= 12 moves, thorough; 1..=2 near middlegame roots) (iteration 1 on a fresh history table, later iterations on the history left by the earlier ones): the iterative-deepening driver with every table lookup forced to miss (node hook clears the table) must print, for every iteration, the value of an exhaustive unpruned negamax over the same tree with the same leaf rule, after clamping mate-range scores; trees containing a node with king but no generated move are skipped and counted");
     out.traces_validated = out.acc.transitions;
     if out.acc.counts.contains_key("roots skipped: reference node cap hit (not compared, not covered)") {
         out.caps.push("reference node cap 2e6 hit on some roots; those roots are not compared and not counted as covered".into());
